@@ -208,6 +208,7 @@ func VerifC09_q_reloadWhileAllocating() {
 		return
 	}
 	floatingip.VerifRotate(w.innerIPAM())
+	w.finishInterference()
 	ran := w.interferer == nil
 	w.interferer = nil
 	verifReach("reload-returned")
